@@ -503,7 +503,16 @@ func (m *machine) userChangesMode(viaCommands bool) {
 		})
 	} else {
 		// the library call, with an explicit as-of time, and the read-back clause of C02
-		asof := now.Add(-time.Duration(t.Draw(30)) * 24 * time.Hour)
+		asof := now.Add(-time.Duration(t.Draw(30))*24*time.Hour - time.Duration(t.Draw(24))*time.Hour)
+		// the caller's time may be in any zone: the recorded date is the UTC date
+		switch t.Draw(4) {
+		case 1:
+			asof = asof.In(time.FixedZone("UTC-5", -5*3600))
+		case 2:
+			asof = asof.In(time.FixedZone("UTC+14", 14*3600))
+		case 3:
+			asof = asof.In(time.FixedZone("UTC-11:30", -11*3600-1800))
+		}
 		bad := t.Bool(1, 5)
 		req := want
 		if bad {
